@@ -304,7 +304,7 @@ def repo_src(*names):
 
 
 SAN_ENV = {"ASAN_OPTIONS": "detect_leaks=0:abort_on_error=0:exitcode=99:allocator_may_return_null=1:detect_stack_use_after_return=0",
-           "UBSAN_OPTIONS": "print_stacktrace=1:halt_on_error=1:exitcode=98"}
+           "UBSAN_OPTIONS": "print_stacktrace=1:halt_on_error=1:abort_on_error=1:exitcode=98"}
 
 
 def run_harness(cmd, timeout=900, env=None, stdin=None, cwd=None):
